@@ -218,6 +218,12 @@ pub fn run(ctx: &Ctx) -> Report {
         st
     });
     total.merge(rnd);
+    // coverage-guided part (structure-aware target `spell`, oracles of C06 and C13 inside the target):
+    // replay of the committed corpus (quick), libFuzzer campaign (thorough)
+    crate::fuzzrun::replay_corpus("spell", &mut total);
+    if ctx.tier == Tier::Thorough {
+        crate::fuzzrun::campaign("spell", ctx.seed, 300_000, 8, 400, &mut total);
+    }
     Report {
         stats: total,
         rule: "random trees (depth<=6) over the whole keyword vocabulary, printed canonically (single blanks, -a, -o, minimal parentheses, first permitted quoting style) and through a variant grammar driven by a generated choice stream: separator per gap from {' ', '  ', TAB, LF, CR, CRLF, ' TAB ', 'LF '}, leading/trailing blanks, AND as -a/implicit/-and, OR as -o/-or, redundant parentheses '( X )' or '(X)' per operand, bare/single/double quoting per word-like argument when the value permits. Oracle (metamorphic): the variant parses and gives the same (options Debug, tree) as the canonical spelling; blank input == -true. Non-trivial: variant differs from canonical in >=2 dimensions, or a non-space blank directly follows a bare argument, or tight parentheses are used. Distinct: by (tree, choice stream).".into(),
